@@ -131,3 +131,6 @@ Proof. vm_compute. reflexivity. Qed.
 
 Lemma inventory_kernel_mutations : strings_eqb inv_kernel_mutations expected_kernel_mutations = true.
 Proof. vm_compute. reflexivity. Qed.
+
+Lemma generated_rewriters_before_wrapper : rewriters_before_wrapper pipeline = true.
+Proof. vm_compute. reflexivity. Qed.
